@@ -957,7 +957,7 @@ def run(chk, drv):
     shadow_probe(chk)
     if drv is not None:
         correspond(chk, drv, obs)
-    from props import c11_call          # the call protocol: model `call` vs real calls, race probe (D45)
+    from props import c11_call          # the call protocol: model `call` vs real calls, race probe (D51)
     c11_call.run_extra(chk, drv)
 
 
